@@ -9,7 +9,7 @@ def nontrivial(p, line):
 
 
 def run(tier, seed):
-    return pipe.run_property("C06", tier, seed, ['hall', 'noise', 'hallreq'], PROPS,
+    return pipe.run_property("C06", tier, seed, ['hall', 'noise', 'hallreq', 'lowsym'], PROPS,
                              {"rule": 'every Hall setting in both conventions, noisy twins (<= 5% symprec), and every requested Hall setting; non-trivial when a dataset was returned and the setting is not P1'},
                              nontrivial,
                              trusted=["premise validation of the generator (the generated crystal has exactly the generating group, symmetry gap >= 0.2 A) is a brute-force search in Rust, independent of moyo",
